@@ -342,7 +342,7 @@ def h_metrics(ctx, ntrades=2, nbal=3, ratios=True, symbal=1):
     ctx.event('ratio-identities-checked')
 
 
-def h_equity(ctx, days=2, exch='futures', two_routes=False):
+def h_equity(ctx, days=2, exch='futures', two_routes=False, side='long'):
     """equity samples: concrete candles, symbolic starting balance / fee / quantity"""
     n = 1440 * days + 7
     start = ctx.real('start', 5000, 100000)
@@ -359,13 +359,16 @@ def h_equity(ctx, days=2, exch='futures', two_routes=False):
 
     class E(Strategy):
         def should_long(self):
-            return self.index % 700 == 3
+            return side == 'long' and self.index % 700 == 3
 
         def should_short(self):
-            return False
+            return side == 'short' and self.index % 700 == 3
 
         def go_long(self):
             self.buy = q, self.price
+
+        def go_short(self):
+            self.sell = q, self.price
 
         def should_cancel_entry(self):
             return True
@@ -435,6 +438,7 @@ def _jobs(tier):
     if tier != 'quick':
         jobs.append(Job('ratios_t1_b3_s2', h_metrics, {'ntrades': 1, 'nbal': 3, 'symbal': 2, 'ratios': True}, dict(opts)))
     jobs.append(Job('equity_1d_futures', h_equity, {'days': 1, 'exch': 'futures'}, dict(opts)))
+    jobs.append(Job('equity_1d_futures_short', h_equity, {'days': 1, 'exch': 'futures', 'side': 'short'}, dict(opts)))
     if tier != 'quick':
         jobs.append(Job('equity_2d_futures', h_equity, {'days': 2, 'exch': 'futures'}, dict(opts)))
         jobs.append(Job('equity_1d_spot', h_equity, {'days': 1, 'exch': 'spot'}, dict(opts)))
